@@ -133,6 +133,18 @@ def replay(cs, scenario, graph, rec, modes=DEFAULT_MODES, foreign=True, max_stat
             rec.actions(e)
         if param_envs:
             rec.decode_all(param_envs[0], limit=decode_limit)
+    # a vector of the parameterised space that the implementation decodes to the no-op (input selection only)
+    noop_vec = None
+    if param_envs:
+        try:
+            import itertools
+            sp_ = rec.envs[param_envs[0]].action_space
+            for vec in itertools.islice(itertools.product(*[range(int(x)) for x in sp_.nvec]), 4000):
+                if vec[0] in (0, 1) and sp_.get_action(list(vec)).is_noop():
+                    noop_vec = [int(x) for x in vec]
+                    break
+        except Exception:      # noqa
+            noop_vec = None
     counter = 0
     grp = 0
     kept = {}
@@ -150,10 +162,24 @@ def replay(cs, scenario, graph, rec, modes=DEFAULT_MODES, foreign=True, max_stat
             sps = [spec_for(cs, params, k, modes[j][1], counter + j) for j in range(len(eids))]
             for j, e in enumerate(eids):
                 rec.genstep(e, None, sps[j], u, grp=grp)
+            if foreign and kept and counter % 3 == 0:
+                # a look-ahead with the same action from ANOTHER (kept) state between generative_step(current) and
+                # step(): the step must still be the current state's
+                ks = list(kept.values())
+                rec.genstep(eids[0], ks[counter % len(ks)], sps[0], u)
             last = None
             for j, e in enumerate(eids):
                 last = rec.step(e, sps[j], u, grp=grp)
                 tree_steps += 1
+        # the no-op through real steps (as an object; for a parameterised space also as a vector that decodes to it)
+        if si % 2 == 0:
+            for j, e in enumerate(eids):
+                if noop_vec is not None and not modes[j][1] and si % 4 == 0:
+                    nsp = (VEC_ENCS[si % 3], noop_vec)
+                else:
+                    nsp = ("obj", pyref.flat_action(cs, 0))
+                rec.genstep(e, None, nsp, 0.5)
+                rec.step(e, nsp, 0.5)
         kept[s] = rec.hold(rec.envs[eids[0]].current_state)
         for e in eids[:2]:
             rec.goal(e, None)
